@@ -72,7 +72,7 @@ def group(rng, base, ng):
     return grp
 
 
-def hier_case(rng, levels=None, last_all_atom=True, share_p=0.0):
+def hier_case(rng, levels=None, last_all_atom=True, share_p=0.0, virtual_p=0.0):
     """molecule -> atom fragments (level L) -> groups (level L-1) [-> groups of groups]"""
     while True:
         g = gen_mol.rnd_mol(rng, rng.randint(4, 12), aromatic_p=0.2)
@@ -86,6 +86,7 @@ def hier_case(rng, levels=None, last_all_atom=True, share_p=0.0):
         layers = []      # list of (fragment-block string)
         reuse_names = rng.random() < 0.3
         nshared = [0]
+        nvirtual = [0]
         names = {i: 'F%d' % i for i in range(nf)}
         cur = base
         ok = True
@@ -148,19 +149,25 @@ def hier_case(rng, levels=None, last_all_atom=True, share_p=0.0):
             for j in range(ng):
                 members = [f for f in ext if grp[f] == j]
                 sub = ext.subgraph(members).copy()
-                block.append('#%s=%s' % (gnames[j], render_cg_fragment(rng, sub, names, desc)))
+                text = render_cg_fragment(rng, sub, names, desc)
+                if virtual_p and rng.random() < virtual_p:
+                    # a node without fragment, attached by a zero-order bond: virtual at the next step
+                    text = text + '.[#VX]' if rng.random() < 0.5 else '[#VX].' + text
+                    nvirtual[0] += 1
+                block.append('#%s=%s' % (gnames[j], text))
             rng.shuffle(block)
             layers.append('{' + ','.join(block) + '}')
             cur, names = top, gnames
         if not ok:
             continue
         break
-    base_str, _ = gen_mol.render_base(rng, cur, names)
+    nv_base = rng.choice([1, 2]) if (virtual_p and rng.random() < virtual_p) else 0
+    base_str, _ = gen_mol.render_base(rng, cur, names, virtual=nv_base)
     frags = ','.join('#F%d=%s' % (i, frag_text[i]) for i in rng.sample(range(nf), nf))
     s = base_str + '.' + '.'.join(reversed(layers)) + '.{' + frags + '}'
     flat_base, _ = gen_mol.render_base(rng, base, {i: 'F%d' % i for i in range(nf)})
     whole = '{[#M]}.{#M=' + gen_mol.render_frag(rng, g, list(g), {}) + '}'
-    return {'kind': 'hier', 'nshared_upper': nshared[0], 's': s, 'flat': flat_base + '.{' + frags + '}', 'whole': whole, 'levels': levels + 1,
+    return {'kind': 'hier', 'nshared_upper': nshared[0], 'nvirtual': nvirtual[0] + nv_base, 's': s, 'flat': flat_base + '.{' + frags + '}', 'whole': whole, 'levels': levels + 1,
             'nfrag': nf, 'natoms': len(g),
             'mol': {'n': [[k, d['element'], d['charge'], d['h'], d['aromatic']] for k, d in g.nodes(data=True)],
                     'e': [[a, b, o] for a, b, o in g.edges(data='order')]}}
